@@ -86,6 +86,12 @@ def run(F, R):
     # P5 a refused submission shares nothing, and exactly the submissions that cannot fit are refused
     from .C03 import e3_capacity
     e3_capacity(F, R, M, add_id, rule='P5', rule1='P5')
+    # P7 driver-level token tables: the unshare at completion receives the buffer that was shared under that token only
+    # if a driver that looks buffers up by token stores each buffer under the token returned by the add that submitted
+    # it (shared with C16.S4; the buffered network driver is the only such table outside the queue module)
+    from .C16 import s4_custody
+    from . import C05 as _c5
+    s4_custody(F, R, M, _c5.classify_api(_c5.queue_api(F, M)), rule='P7', only=('receive', 'recycle_rx_buffer'))
 
 
 def dma_field_roles(F, M):
